@@ -2,11 +2,13 @@
 //! what happened as JSON for TLC. Judging is done by TLC only.
 mod enc;
 mod sem;
+mod syn;
 
 fn main() {
     let args: Vec<String> = std::env::args().collect();
     let r = match args.get(1).map(|s| s.as_str()) {
         Some("sem") if args.len() == 4 => sem::run(&args[2], &args[3]),
+        Some("syn") if args.len() == 4 => syn::run(&args[2], &args[3]),
         Some("dups") => { debug_dups(&args[2..]); Ok(()) }
         Some("probe") if args.len() == 3 => sem::probe(&args[2]),
         Some("describe") if args.len() == 4 => {
